@@ -148,6 +148,8 @@ def signature(case, ans):
 
 def shrink(case):
     """smaller conversations: drop one segment, merge everything into one segment, drop trailing octets"""
+    if not case.startswith("conv"):
+        return []
     segs, end = case_input(case)
     out = []
     if "TLS" in segs:
@@ -165,6 +167,8 @@ def shrink(case):
 
 def mutate(case, rng):
     """neighbourhood: re-segmentations, single-line deletions/duplications, end-of-input variants"""
+    if not case.startswith("conv"):
+        return []
     segs, end = case_input(case)
     if "TLS" in segs:
         return []
